@@ -361,9 +361,11 @@ Theorem C10_gen_count_independent :
   g_run conv src pol (g_init src) ops = g_run conv src pol (g_init src) ops'.
 Proof. intros. now apply g_run_generation_independent. Qed.
 
-(* and for a regular class (dataclass order; the CatchAll field required or with a plain
-   default — not a default_factory, F91) every load of every history is the counter-free,
-   position-free specification; the generation never fails *)
+(* and for a regular class (dataclass order; the '?' of the marker agrees with the CatchAll
+   field having a default — which holds for EVERY class since fix d23b12f, see
+   C10_gen_class_regular) every load of every history is the counter-free, position-free
+   specification; the generation never fails.  `_partial`: only the F19 region
+   (two fields sharing a key) stays excluded. *)
 Theorem C10_gen_history_spec_partial :
   forall (src : v1src) (pol : nat -> v1policy) (ops : list (gop raw)),
   src_regular src = true ->
@@ -384,6 +386,45 @@ Theorem C10_gen_never_fails :
   (forall cf q, s_catch src = Some (cf, q) -> In cf (map if_name (s_init src))) ->
   exists g, v1_generate src (s_init src) p = GenOk g.
 Proof. exact gen_pristine_ok. Qed.
+
+(* after fix d23b12f (F91) class_helper writes the '?' of the marker from the field itself
+   (default OR default_factory): EVERY class in dataclass order with distinct field names is
+   regular — whatever kind of default the CatchAll field has and wherever it is declared — and
+   its generation cannot fail *)
+Theorem C10_gen_class_regular :
+  forall name (init : list ifield) (catch tag : option pstr),
+  req_then_opt init = true -> NoDup (map if_name init) ->
+  src_regular (mk_src name init catch tag) = true /\
+  forall p, exists g, v1_generate (mk_src name init catch tag) init p = GenOk g.
+Proof.
+  intros name init catch tag Hr Hn. split; [now apply mk_src_regular|].
+  intro p. apply (gen_pristine_ok (mk_src name init catch tag) p). apply mk_src_catch_in.
+Qed.
+
+(* the former F91 region stated positively: a CatchAll field with a default — plain or
+   default_factory — declared ANYWHERE among the defaulted fields (in particular after a
+   defaulted field) gets the '?' marker, is passed by keyword (it is not among the positional
+   arguments), every positional value lands in its own parameter, and every load of every
+   history is the specification: exactly the unknown pairs, mapped fields untouched *)
+Theorem C10_gen_default_factory :
+  forall name (init : list ifield) cf tag f (pol : nat -> v1policy) (ops : list (gop raw)),
+  req_then_opt init = true -> NoDup (map if_name init) ->
+  find (fun f => pstr_eqb (if_name f) cf) init = Some f -> if_default f = true ->
+  let src := mk_src name init (Some cf) tag in
+  (forall p, exists g, v1_generate src init p = GenOk g /\ pos_ok src g = true /\
+                       d_catch (g_cls g) = Some (cf, true) /\ ~ In cf (g_pos g)) /\
+  ((forall p g, v1_generate src init p = GenOk g -> v1_disjointb (g_cls g) = true) ->
+   (forall r o, In (r, o) (@loads_of raw ops) -> NoDup (keys o)) ->
+   g_run conv src pol (g_init src) ops =
+   map (fun ro => match v1_generate src init (pol (fst ro)) with
+                  | GenOk g => GOut (v1_spec conv (g_cls g) (snd ro))
+                  | GenValueError => GValueError
+                  end) (@loads_of raw ops)).
+Proof.
+  intros name init cf tag f pol ops Hr Hn Ef Hd src. split.
+  - intro p. now apply (gen_defaulted_catch_by_keyword name init cf tag p f).
+  - intros Hdis Hdocs. apply (C10_gen_history_spec_partial src pol ops); [now apply mk_src_regular|exact Hdis|exact Hdocs].
+Qed.
 
 (* default engine: the loaders generated for one class under several roots share its cache and
    differ in the raise flag.  For ALL histories of loads across roots in which no load under an
@@ -504,6 +545,8 @@ Print Assumptions C10_gen_history.
 Print Assumptions C10_gen_count_independent.
 Print Assumptions C10_gen_history_spec_partial.
 Print Assumptions C10_gen_never_fails.
+Print Assumptions C10_gen_class_regular.
+Print Assumptions C10_gen_default_factory.
 Print Assumptions C10_multi_root_partial.
 Print Assumptions C10_dump_catch_exact.
 Print Assumptions C10_dump_skip_if_irrelevant.
@@ -538,37 +581,47 @@ Example C10_example_consumed_table :
   v1_generate XItem tbl1 PIgnore = GenValueError.
 Proof. split; [eexists|]; vm_compute; reflexivity. Qed.
 
-(* F91 (open): a CatchAll field with a default_factory has no '?' in the marker, so its variable
-   is passed POSITIONALLY at `catch_all_idx`, but the positional list holds only the required
-   fields: with a defaulted field declared before it, the captured dict lands in THAT field —
-   an unknown key changes the value of a mapped field — and a document that gives the field
-   fails with a bare TypeError even without unknown keys. *)
-Definition F91_src : v1src :=
-  {| s_name := S "A"; s_init := [fld (S "a") false; fld (S "b") true; fld (S "rest") true];
-     s_catch := Some (S "rest", false); s_tag := None |}.
+(* F91 (FIXED by d23b12f).  The class of the former witness, the marker written by the repaired
+   class_helper: the unknown key is captured, `b` keeps its default; a document giving `b` loads;
+   the same through a second generation *)
+Definition F91_init : list ifield := [fld (S "a") false; fld (S "b") true; fld (S "rest") true].
+Definition F91_src : v1src := mk_src (S "A") F91_init (Some (S "rest")) None.
 
-Theorem C10_gen_refuted_default_factory :
-  exists (src : v1src) (g : v1gen),
-    src_regular src = false /\ v1_generate src (s_init src) PIgnore = GenOk g /\
-    v1_disjointb (g_cls g) = true /\ pos_ok src g = false /\
+Example C10_example_default_factory :
+  s_catch F91_src = Some (S "rest", true) /\ src_regular F91_src = true /\
+  g_run yconv F91_src (fun _ => PIgnore) (g_init F91_src)
+    [OpLoad 0 [(S "a", S "1"); (S "zz", S "5")]; OpGen 1; OpLoad 1 [(S "a", S "1"); (S "b", S "2")];
+     OpLoad 0 [(S "a", S "1")]; OpLoad 1 [(S "a", S "1"); (S "b", S "2"); (S "zz", S "5")]]
+  = [GOut (OKCall [(S "a", KV (S "1")); (S "rest", KCatch [(S "zz", S "5")])]);
+     GOut (OKCall [(S "a", KV (S "1")); (S "b", KV (S "2"))]);
+     GOut (OKCall [(S "a", KV (S "1"))]);
+     GOut (OKCall [(S "a", KV (S "1")); (S "b", KV (S "2")); (S "rest", KCatch [(S "zz", S "5")])])].
+Proof. repeat split; vm_compute; reflexivity. Qed.
+
+(* the PRE-FIX class_helper gave a default_factory CatchAll field no '?' (it tested only
+   `f.default`): with that marker the generator passes the variable POSITIONALLY at
+   `catch_all_idx`, but the positional list holds only the required fields — the captured dict
+   lands in `b` (an unknown key changes a mapped field) and a document giving `b` is a bare
+   TypeError.  Kept as a statement about the explicitly named pre-fix marker: a revert of
+   d23b12f makes the implementation behave like THIS model, not like `mk_src`. *)
+Definition pre_fix_F91_src : v1src :=
+  {| s_name := S "A"; s_init := F91_init; s_catch := Some (S "rest", false); s_tag := None |}.
+
+Theorem C10_gen_pre_fix_refuted :
+  exists (g : v1gen),
+    s_catch pre_fix_F91_src <> class_marker F91_init (Some (S "rest")) /\
+    src_regular pre_fix_F91_src = false /\ v1_generate pre_fix_F91_src F91_init PIgnore = GenOk g /\
+    v1_disjointb (g_cls g) = true /\ pos_ok pre_fix_F91_src g = false /\
     v1_spec yconv (g_cls g) [(S "a", S "1"); (S "zz", S "5")]
       = OKCall [(S "a", KV (S "1")); (S "rest", KCatch [(S "zz", S "5")])] /\
-    v1g_load yconv src g [(S "a", S "1"); (S "zz", S "5")]
+    v1g_load yconv pre_fix_F91_src g [(S "a", S "1"); (S "zz", S "5")]
       = GOut (OKCall [(S "a", KV (S "1")); (S "b", KCatch [(S "zz", S "5")])]) /\
-    v1g_load yconv src g [(S "a", S "1"); (S "b", S "2")] = GTypeError (S "b").
+    v1g_load yconv pre_fix_F91_src g [(S "a", S "1"); (S "b", S "2")] = GTypeError (S "b").
 Proof.
-  exists F91_src. eexists. split; [vm_compute; reflexivity|]. split; [vm_compute; reflexivity|].
+  eexists. split; [vm_compute; discriminate|]. split; [vm_compute; reflexivity|]. split; [vm_compute; reflexivity|].
   repeat split; vm_compute; reflexivity.
 Qed.
-Print Assumptions C10_gen_refuted_default_factory.
-
-(* a default_factory CatchAll field is harmless when no defaulted field precedes it *)
-Example C10_example_factory_first :
-  let src := {| s_name := S "B"; s_init := [fld (S "a") false; fld (S "rest") true; fld (S "b") true];
-                s_catch := Some (S "rest", false); s_tag := None |} in
-  src_regular src = false /\
-  match v1_generate src (s_init src) PIgnore with GenOk g => pos_ok src g | GenValueError => false end = true.
-Proof. split; vm_compute; reflexivity. Qed.
+Print Assumptions C10_gen_pre_fix_refuted.
 
 (* two roots, the strict one used first: the second load (lax root) drops 'seen', the third
    (strict root again) still rejects a NEW key... and would accept 'seen' (F10-C10-alone-first) *)
